@@ -234,30 +234,7 @@ Definition spec_ok_ctx (cc : ctxcfg) (prog : list stmt)
   ok && match rest with [] => true | _ => false end
   && Bool.eqb r raised && cstate_eqb final (mkC [] []).
 
-(** * The region in which the present code is proved to meet part B
-
-    [cfg_sane]: the configured run options are not themselves refused (then every
-    call would raise).  [sudo_env_given]: the sudo call passes its [env] itself, or
-    nothing is configured under [run.env] -- otherwise [--preserve-env] misses the
-    configured names (F-C15). *)
+(** * Part B holds whenever the configured run options are not themselves refused
+    (otherwise every call raises before reaching the runner's [start]). *)
 Definition cfg_sane (cc : ctxcfg) : bool :=
   match rejected (cc_run cc) no_kw with None => true | Some _ => false end.
-
-Definition sudo_env_given (cc : ctxcfg) (env_kw : option oval) : bool :=
-  match env_kw with
-  | Some ONone | None =>
-      match want (cc_run cc) no_kw Env with ODict (_ :: _) => false | _ => true end
-  | Some _ => true
-  end.
-
-Fixpoint guard_stmt (cc : ctxcfg) (s : stmt) {struct s} : bool :=
-  match s with
-  | SSudo _ _ e => sudo_env_given cc e
-  | SBlock _ body =>
-      (fix go (l : list stmt) : bool :=
-         match l with [] => true | x :: l' => guard_stmt cc x && go l' end) body
-  | _ => true
-  end.
-
-Definition guard_prog (cc : ctxcfg) (prog : list stmt) : bool :=
-  cfg_sane cc && forallb (guard_stmt cc) prog.
